@@ -540,6 +540,13 @@ var AncestorLoop = errors.New("ancestor loop detected")
 
 // DoAncestors calls the given function on this location and all of its ancestors in depth-first order.
 func (loc *Location) DoAncestors(ctx *Context, fn func(*Location) error) error {
+	return loc.doAncestors(ctx, fn, make(map[string]bool))
+}
+
+// doAncestors does the work for DoAncestors.  The given path is the
+// set of locations we are currently below, so we can detect a parent
+// chain that loops back.
+func (loc *Location) doAncestors(ctx *Context, fn func(*Location) error, path map[string]bool) error {
 
 	parents, err := loc.getParents(ctx)
 	if err != nil {
@@ -552,12 +559,13 @@ func (loc *Location) DoAncestors(ctx *Context, fn func(*Location) error) error {
 			return NoLocationProvider
 		}
 
+		path[loc.Name] = true
+		defer delete(path, loc.Name)
+
 		for _, parent := range parents {
-			if parent == loc.Name {
-				// Quick, local loop check.  To check
-				// for non-local loops, need to keep
-				// some state in the stack.  We're not
-				// (yet) doing that.
+			if path[parent] {
+				// This parent is us or is already above
+				// us: a loop.
 				return AncestorLoop
 			}
 
@@ -571,7 +579,7 @@ func (loc *Location) DoAncestors(ctx *Context, fn func(*Location) error) error {
 			if err != nil {
 				return err
 			}
-			if err = p.DoAncestors(ctx, fn); err != nil {
+			if err = p.doAncestors(ctx, fn, path); err != nil {
 				return err
 			}
 		}
